@@ -21,6 +21,7 @@ RULE = ("cases: texts for Acl(line=), AceGroup(line=) and AddrGroup(line=) whose
         "meaning), an ignorable line, or named in a WARNING record (ACL / AceGroup) resp. any log record "
         "(AddrGroup); no item is left over. Non-trivial: the body mixes at least one valid and one "
         "invalid/ignorable line; distinct by canonical text")
+RULE += ". Directed classes added after the seeded-change rounds: header-like invalid lines; opaque options with free-text operands; long remark texts"
 ASSUMPTIONS = ["a log record names a line when it contains repr(line) of the whitespace-normalised line (for address "
                "groups also of the line without its leading sequence number)",
                "lines the library accepts although the generator labelled them invalid are accounted as items"]
